@@ -343,7 +343,9 @@ V("C02-eval-method-literal", "C02", ["C02.R4"], [(BASE, 'if factor.eval_method.v
 V("C02-na-action-value-is", "C02", ["C02.R4"], [(BASE, "        if na_action is NAAction.IGNORE:", "        if na_action.value is NAAction.IGNORE:")])
 V("C02-constant-branch-dropped", "C02", ["C02.R5"], [(BASE, "            if factor.metadata.kind is Factor.Kind.CONSTANT:\n                scale *= factor.values\n            elif factor.metadata.spans_intercept:",
                                                       "            if factor.metadata.spans_intercept:")])
-V("C02-merge-scale-dropped", "C02", ["C02.R5"], [(BASE, "                                scale=existing_term.scale * scoped_term.scale,", "                                scale=scoped_term.scale,")])
+V("C02-revert-merge-scale", "C02", ["C02.R5"], [(BASE, "                                scale=scoped_term.scale,\n", "                                scale=existing_term.scale * scoped_term.scale,\n")],
+  "origin: revert 7bfb926 ('0 + 2:a:b' scaled by 16)")
+V("C02-merge-scale-dropped", "C02", ["C02.R5"], [(BASE, "                                scale=scoped_term.scale,\n", "")])
 V("C02-flatten-wrong-value", "C02", ["C02.R6"], [(BASE, "                flattened[subname] = value", "                flattened[subname] = values")])
 V("C02-sibling-drift", "C02", ["C02.R7"], [(NARWHALS, "        series = value * numpy.ones(nrows)\n        return series\n\n    @override\n    def _encode_numerical(\n        self,\n        values: Any,\n        metadata: Any,\n        encoder_state: dict[str, Any],\n        spec: ModelSpec,\n        drop_rows: Sequence[int],\n    ) -> Any:\n        if drop_rows:\n            values = drop_nulls(values, indices=drop_rows)\n        if spec.output == \"sparse\":\n            return spsparse.csc_matrix(\n                numpy.array(values).reshape((values.shape[0], 1))\n            )\n        return values\n\n    @override\n    def _encode_categorical(\n        self,\n        values: Any,\n        metadata: Any,\n        encoder_state: dict[str, Any],\n        spec: ModelSpec,\n        drop_rows: Sequence[int],\n        reduced_rank: bool = False,\n    ) -> Any:\n        # Even though we could reduce rank here, we do not, so that the same\n        # encoding can be cached for both reduced and unreduced rank. The\n        # rank will be reduced in the _encode_evaled_factor method.\n        from formulaic.transforms import encode_contrasts\n\n        if drop_rows:\n            values = drop_nulls(values, indices=drop_rows)\n        if nw",
                                             "        series = value + numpy.zeros(nrows)\n        return series\n\n    @override\n    def _encode_numerical(\n        self,\n        values: Any,\n        metadata: Any,\n        encoder_state: dict[str, Any],\n        spec: ModelSpec,\n        drop_rows: Sequence[int],\n    ) -> Any:\n        if drop_rows:\n            values = drop_nulls(values, indices=drop_rows)\n        if spec.output == \"sparse\":\n            return spsparse.csc_matrix(\n                numpy.array(values).reshape((values.shape[0], 1))\n            )\n        return values\n\n    @override\n    def _encode_categorical(\n        self,\n        values: Any,\n        metadata: Any,\n        encoder_state: dict[str, Any],\n        spec: ModelSpec,\n        drop_rows: Sequence[int],\n        reduced_rank: bool = False,\n    ) -> Any:\n        # Even though we could reduce rank here, we do not, so that the same\n        # encoding can be cached for both reduced and unreduced rank. The\n        # rank will be reduced in the _encode_evaled_factor method.\n        from formulaic.transforms import encode_contrasts\n\n        if drop_rows:\n            values = drop_nulls(values, indices=drop_rows)\n        if nw")])
@@ -708,3 +710,34 @@ V("C01-join-ignores-set", "C01", ["C01.R10"], [(PUTILS, "                       
 V("C01-insert-anywhere", "C01", ["C01.R10"], [(PUTILS, "            if m and m.span()[1] == len(split_token.token):", "            if m:")])
 V("C01-merge-reversed", "C01", ["C01.R10"], [(PUTILS, "token=pooled_token.token + token.token", "token=token.token + pooled_token.token")])
 V("C01-merge-no-flush", "C01", ["C01.R10"], [(PUTILS, "    if pooled_token:\n        yield pooled_token\n", "")])
+
+# ----------------------------------------------------------------------------------------- variants distilled from seeded changes (see /verif/seeded)
+TERM = "formulaic/parser/types/term.py"
+V("C01-term-key-joined", "C01", ["C01.R5"], [(TERM, "        self._factor_key = tuple(factor.expr for factor in sorted(self.factors))\n        self._hash = hash(\":\".join(self._factor_key))",
+                                              "        self._factor_key = \":\".join(factor.expr for factor in sorted(self.factors))\n        self._hash = hash(self._factor_key)")], "seed C01-s3")
+V("C14-rhs-index-pop", "C14", ["C14.R8"], [(PARSER, """                        if (
+                            not context
+                            or context[-1] != CONTEXT_CLOSERS[token.token]
+                        ):
+                            return -1  # pragma: no cover ; should not happen
+                        context.pop()""", """                        if context.pop() != CONTEXT_CLOSERS[token.token]:
+                            return -1  # pragma: no cover ; should not happen""")], "seed C14-s1: stray closer -> IndexError")
+V("C14-power-token-none", "C14", ["C14.R9"], [(PARSER, "(next(iter(power)).factors[0].token if power else None) or Token(),", "next(iter(power)).factors[0].token if power else Token(),")], "seed C14-s3")
+V("C14-guard-order-equiv", "C14", [], [(PARSER, """                        if (
+                            not context
+                            or context[-1] != CONTEXT_CLOSERS[token.token]
+                        ):""", """                        if len(context) == 0 or context[-1] != CONTEXT_CLOSERS[token.token]:""")])
+V("C17-named-layers-forward", "C17", ["C17.R2"], [(LMAP, "        for layer in reversed(self._layers):\n            if isinstance(layer, LayeredMapping):\n                if layer.name:\n                    local[layer.name] = layer\n                named_layers.update(layer.named_layers)\n        named_layers.update(local)",
+                                                     "        for layer in self._layers:\n            if isinstance(layer, LayeredMapping):\n                named_layers.update(layer.named_layers)")], "seed C17-s1")
+V("C17-aliases-as-context", "C17", ["C17.R4"], [(FORMULA, "                sanitize_variable_names(factor.expr, {}, aliases), {}, aliases\n", "                sanitize_variable_names(factor.expr, {}, aliases), aliases\n")], "seed C17-s3")
+V("C17-context-dropped-overrides", "C17", ["C17.R7"], [(SPEC, "            return self.update(**attr_overrides).get_model_matrix(\n                data, context=context, drop_rows=drop_rows\n            )", "            return self.update(**attr_overrides).get_model_matrix(\n                data, drop_rows=drop_rows\n            )")], "seed C17-s2")
+V("C04-bs-clip-train-only", "C04", ["C04.R6"], [(BS, "        if not numpy.all(locs):\n            knots_x = x[locs]", "        if \"knots\" not in _state and not numpy.all(locs):\n            knots_x = x[locs]")], "seed C04-s2")
+V("C09-pool-filtered", "C09", ["C09.R1"], [(BASE, "            encoder_state.update(model_spec.encoder_state)\n", "            encoder_state.update({k: v for k, v in model_spec.encoder_state.items() if k in model_spec.formula})\n")], "seed C09-s1")
+V("C09-C-levels-from-data", "C09", ["C09.R3"], [(CONTRASTS, "    def encoder(\n        values: Any,\n        reduced_rank: bool,\n        drop_rows: list[int],\n        encoder_state: dict[str, Any],\n        model_spec: ModelSpec,\n    ) -> FactorValues:\n        # wrapped numpy arrays are problematic",
+                                                 "    if levels is None and isinstance(getattr(data, \"dtype\", None), pandas.CategoricalDtype):\n        levels = list(data.cat.categories)\n\n    def encoder(\n        values: Any,\n        reduced_rank: bool,\n        drop_rows: list[int],\n        encoder_state: dict[str, Any],\n        model_spec: ModelSpec,\n    ) -> FactorValues:\n        # wrapped numpy arrays are problematic")], "seed C09-s2")
+V("C03-cache-key-encoded", "C03", ["C03.R6"], [(BASE, "                    if isinstance(encoded, dict) and factor.metadata.drop_field\n", "                    if isinstance(encoded, dict) and encoded.__formulaic_metadata__.drop_field\n")], "seed C07-s1")
+V("C07-cache-key-encoded", "C07", ["C07.R8"], [(BASE, "                    if isinstance(encoded, dict) and factor.metadata.drop_field\n", "                    if isinstance(encoded, dict) and encoded.__formulaic_metadata__.drop_field\n")], "seed C07-s1")
+V("C07-rehydrate-scale", "C07", ["C07.R6"], [("formulaic/materializers/types/scoped_term.py", "                for factor in self.factors\n            ],\n            scale=self.scale,\n        )\n\n    @property", "                for factor in self.factors\n            ],\n        )\n\n    @property")], "seed C07-s2")
+V("C02-rehydrate-scale", "C02", ["C02.R2"], [("formulaic/materializers/types/scoped_term.py", "                for factor in self.factors\n            ],\n            scale=self.scale,\n        )\n\n    @property", "                for factor in self.factors\n            ],\n        )\n\n    @property")], "seed C02-s2")
+V("C07-C-label-drop", "C07", ["C07.R7"], [(CONTRASTS, "        values = values.iloc[numpy.delete(numpy.arange(values.shape[0]), drop_rows)]", "        values = values.drop(index=values.index[drop_rows])")], "seed C07-s3")
+V("C18-env-conditional-wrap", "C18", ["C18.R4"], [(STATEFUL, "    env = LayeredMapping(\n        env\n    )  # We sometimes mutate env, so we make sure we do so in a local mutable layer.", "    if not isinstance(env, LayeredMapping):\n        env = LayeredMapping(env)")], "seed C18-s1")
